@@ -205,6 +205,96 @@ void NetworkCm02Model__comm_action_set_variable(struct NetworkCm02Model* self, s
     __CPROVER_ensures(UB < 0.0 || GAMMA_ON || g_uvb_bound == UB) /*@ rate_bound_is_user_bound_without_gamma */
     __CPROVER_ensures(g_uvp_calls == 0 && g_exp_calls == 0);
 
+
+/* ---------------- comm_action_set_bounds: min bandwidth over the non-WIFI links, user rate, latency factor ------ */
+#ifndef RCAP
+#define RCAP 4 /* capacity of the route in the harness state (its length is symbolic); the loop proof is unbounded */
+#endif
+struct StandardLinkImpl g_links[RCAP];
+struct StandardLinkImpl* g_routed[RCAP];
+struct vf_set_NetZoneImplP g_zones;
+struct Host g_src, g_dst;
+double g_bwf, g_latf; /* what get_bandwidth_factor / get_latency_factor return */
+double g_minbw;       /* ghost: the minimum bandwidth over the non-WIFI links of the route (pinned by MINBW_OK) */
+size_t gk;            /* ghost index: an arbitrary route position */
+#define FACTORS (g_net.__b_NetworkModel.__b_NetworkModelFactors)
+
+double NetworkModelFactors__get_bandwidth_factor(struct NetworkModelFactors* self, double size, struct Host* src,
+                                                 struct Host* dst, struct vf_seq_LinkP* links, struct vf_set_NetZoneP* zones)
+    __CPROVER_requires(self == &FACTORS) __CPROVER_assigns() __CPROVER_ensures(EQ(__CPROVER_return_value, g_bwf));
+double NetworkModelFactors__get_latency_factor(struct NetworkModelFactors* self, double size, struct Host* src,
+                                               struct Host* dst, struct vf_seq_LinkP* links, struct vf_set_NetZoneP* zones)
+    __CPROVER_requires(self == &FACTORS) __CPROVER_assigns() __CPROVER_ensures(EQ(__CPROVER_return_value, g_latf));
+
+/* reached only when a user factor callback is installed (excluded by the precondition below) */
+struct Link* StandardLinkImpl__get_iface(struct StandardLinkImpl* self) __CPROVER_requires(1) __CPROVER_assigns()
+    __CPROVER_ensures(1);
+struct NetZone* NetZoneImpl__get_iface(struct NetZoneImpl* self) __CPROVER_requires(1) __CPROVER_assigns()
+    __CPROVER_ensures(1);
+#define IS_LINK(p) ((p) == &g_links[0] || (p) == &g_links[1] || (p) == &g_links[2] || (p) == &g_links[3])
+#ifdef H_get_bandwidth
+/* proved view: the bandwidth of a link is peak * scale */
+double StandardLinkImpl__get_bandwidth(struct StandardLinkImpl* self)
+    __CPROVER_requires(self == &g_links[0] && FIN(self->bandwidth_.peak) && FIN(self->bandwidth_.scale)) __CPROVER_assigns()
+    __CPROVER_ensures(__CPROVER_return_value == self->bandwidth_.peak * self->bandwidth_.scale ||
+                      __CPROVER_isnand(self->bandwidth_.peak * self->bandwidth_.scale)) /*@ bandwidth_is_peak_times_scale */;
+#else
+/* view used by comm_action_set_bounds: the ghost field vf_bw of a link DENOTES its bandwidth peak*scale */
+double StandardLinkImpl__get_bandwidth(struct StandardLinkImpl* self) __CPROVER_requires(IS_LINK(self))
+    __CPROVER_assigns() __CPROVER_ensures(EQ(__CPROVER_return_value, self->vf_bw));
+#endif
+
+#if RCAP != 4
+#error "RCAP must be 4 (ALLR/ANYR are written out)"
+#endif
+#define RN (g_route.n)
+#define NONWIFI(k) ((k) < RN && g_links[k].__b_LinkImpl.sharing_policy_ != SharingPolicy__WIFI)
+#define BW(k) (g_links[k].vf_bw)
+#define ALLR(P) (P(0) && P(1) && P(2) && P(3))
+#define ANYR(P) (P(0) || P(1) || P(2) || P(3))
+#define BW_POS(k) (FIN(BW(k)) && BW(k) > 0.0)
+#define MIN_LE(k) (!NONWIFI(k) || g_minbw <= BW(k))
+#define MIN_AT(k) (NONWIFI(k) && g_minbw == BW(k))
+#define WIRED(k) (g_routed[k] == &g_links[k])
+#define HAS_NONWIFI (ANYR(NONWIFI))
+/* g_minbw is the minimum of the statement: below every non-WIFI bandwidth of the route and attained by one */
+#define MINBW_OK (ALLR(MIN_LE) && (!HAS_NONWIFI || ANYR(MIN_AT)))
+#define B_LINKS (HAS_NONWIFI ? g_minbw : -1.0) /* -1 = unbounded, when the route has no non-WIFI link */
+#define R_USER (rate / g_bwf)                    /* the user's rate, increased by the bandwidth factor */
+
+/* loop invariant, for every route position k (written out over the capacity: the proof needs it at the witness of
+   the minimum, not at one arbitrary ghost index): a non-WIFI link already visited bounds the running minimum */
+#define SEEN(k) ((k) < __i0 && NONWIFI(k))
+#define INV_AT(k) (!SEEN(k) || (bandwidth_bound != -1.0 && bandwidth_bound <= BW(k)))
+#define VF_LOOP_NetworkCm02Model__comm_action_set_bounds_0                                                             \
+  __CPROVER_assigns(__i0, bandwidth_bound)                                                                             \
+  __CPROVER_loop_invariant(__r0 == &g_route && __i0 <= RN && vf_exc == 0 &&                                            \
+                           (bandwidth_bound == -1.0 || (bandwidth_bound >= g_minbw && ANYR(SEEN))) &&                  \
+                           ALLR(INV_AT))                                                                               \
+  __CPROVER_decreases(RN - __i0)
+
+void NetworkCm02Model__comm_action_set_bounds(struct NetworkCm02Model* self, struct Host* src, struct Host* dst,
+                                              double size, struct NetworkCm02Action* action,
+                                              struct vf_seq_StandardLinkImplP* route, struct vf_set_NetZoneImplP* netzones,
+                                              double rate)
+    __CPROVER_requires(self == &g_net && action == &g_na && route == &g_route && netzones == &g_zones && src == &g_src &&
+                       dst == &g_dst && vf_exc == 0 && FACTORS.lat_factor_cb_.fn == 0 && FACTORS.bw_factor_cb_.fn == 0 &&
+                       g_route.d == g_routed && g_route.h == 0 && g_route.cap == RCAP && RN <= RCAP && ALLR(WIRED) &&
+                       ALLR(BW_POS) && FIN(g_minbw) && MINBW_OK && gk < RCAP && FIN(rate) && FIN(g_bwf) && FIN(g_latf) &&
+                       FIN(NA.latency_))
+    __CPROVER_assigns(vf_exc, NA.__b_Action.factor_, NA.__b_Action.user_bound_, NA.lat_current_, NA.latency_)
+    __CPROVER_ensures((vf_exc == VF_EXC_ABORT) == (g_bwf == 0.0)) /*@ zero_bandwidth_factor_is_rejected */
+    __CPROVER_ensures(vf_exc == 0 || vf_exc == VF_EXC_ABORT)
+    __CPROVER_ensures(vf_exc != 0 || NA.__b_Action.factor_ == g_bwf) /*@ rate_factor_is_the_bandwidth_factor */
+    __CPROVER_ensures(vf_exc != 0 || !(R_USER >= 0.0 && R_USER < B_LINKS) || UB == R_USER)
+    /*@ user_rate_over_factor_applies_when_below_the_links */
+    __CPROVER_ensures(vf_exc != 0 || (R_USER >= 0.0 && R_USER < B_LINKS) || UB == B_LINKS)
+    /*@ bound_is_min_bandwidth_of_non_wifi_links */
+    __CPROVER_ensures(vf_exc != 0 || !(gk < RN && NONWIFI(gk)) || UB <= BW(gk)) /*@ bound_below_every_non_wifi_link */
+    __CPROVER_ensures(vf_exc != 0 || NA.lat_current_ == __CPROVER_old(NA.latency_)) /*@ current_latency_is_the_raw_latency */
+    __CPROVER_ensures(vf_exc != 0 || NA.latency_ == __CPROVER_old(NA.latency_) * g_latf)
+    /*@ latency_is_multiplied_by_the_latency_factor */;
+
 #include "gen.c"
 
 /* ---------------- harnesses ---------------------------------------------------------------------------------- */
@@ -265,6 +355,39 @@ void harness(void)
 {
   setup();
   NetworkCm02Model__comm_action_set_variable(&g_net, &g_na, &g_route, &g_back, nondet_bool());
+  VF_CANARY_POINT;
+}
+#endif
+
+#ifdef H_get_bandwidth
+void harness(void)
+{
+  g_links[0].bandwidth_.peak  = nondet_double();
+  g_links[0].bandwidth_.scale = nondet_double();
+  StandardLinkImpl__get_bandwidth(&g_links[0]);
+  VF_CANARY_POINT;
+}
+#endif
+#ifdef H_comm_set_bounds
+size_t nondet_size(void);
+void harness(void)
+{
+  setup();
+  for (int k = 0; k < RCAP; k++) {
+    g_routed[k]                              = &g_links[k];
+    g_links[k].vf_bw                         = nondet_double();
+    g_links[k].__b_LinkImpl.sharing_policy_  = nondet_int();
+  }
+  g_route.d   = g_routed;
+  g_route.h   = 0;
+  g_route.cap = RCAP;
+  g_minbw     = nondet_double();
+  g_bwf       = nondet_double();
+  g_latf      = nondet_double();
+  gk          = nondet_size();
+  FACTORS.lat_factor_cb_.fn = 0;
+  FACTORS.bw_factor_cb_.fn  = 0;
+  NetworkCm02Model__comm_action_set_bounds(&g_net, &g_src, &g_dst, nondet_double(), &g_na, &g_route, &g_zones, nondet_double());
   VF_CANARY_POINT;
 }
 #endif
